@@ -345,7 +345,9 @@ def gen_word(rng):
         t = rng.choice(["{a,{1..3}}", "f{A,B,{1..3}}.txt", "{{1..2},x}", "{a,b{c}}", "{x,{3..1}}y", "p{{2..4..2},q}", "{a,{b}}"])
         return {"kind": "brace-range", "text": t, "feat": "range-or-comma-less-group-as-alternative"}
     if k < 0.38:
-        t = rng.choice(["{a}", "{a,b", "a,b}", "{}", "}{", "{a}{b}", "x{a}y", "{,", "a{b", "{a}b,c", "{a},{b}", "x{a},y{b}", "a,{b}", "{a}{b,c}", "{a,b}{c}"])
+        t = rng.choice(["{a}", "{a,b", "a,b}", "{}", "}{", "{a}{b}", "x{a}y", "{,", "a{b", "{a}b,c", "{a},{b}", "x{a},y{b}", "a,{b}", "{a}{b,c}", "{a,b}{c}",
+                        # digits, two other characters, digits: no range
+                        "{2024}", "v{10.5}", "{1--3}", "{1.:3}", "{12345}", "{a,{1234}}", "{3.14}x"])
         return {"kind": "brace", "text": t, "feat": "negative-no-list"}
     if k < 0.41:
         # the ends of the range parser's number type: the sequence must stop at the bound, not run past it
